@@ -14,6 +14,14 @@ let exit = process/exit in
 "#;
 
 pub fn render(c: &Value) -> String {
+    if c.get("fam").and_then(|f| f.as_str()) == Some("seal") && (c["kind"] == "self" || c["kind"] == "cycle") {
+        // non-productive definitions: A = A, or A = B and B = A; a constructor is checked against A (use "construct") or a
+        // value of type A is matched (use "cross")
+        let (ma, mb) = (c["ma"].as_str().unwrap(), c["mb"].as_str().unwrap());
+        let decls = if c["kind"] == "self" { format!("{ma} A : VType = A that\n  {mb} B : VType = A that") } else { format!("{ma} A : VType = B that\n  {mb} B : VType = A that") };
+        let body = if c["use"] == "construct" { "let a : B = +K(3) that\n  ! exit 3".to_string() } else { "let f = { fn (x : B) => match x | +K(n) => ! exit n end } that\n  ! exit 3".to_string() };
+        return format!("{PRELUDE}begin\n  {decls}\n  {body}\nend\n");
+    }
     if c.get("fam").and_then(|f| f.as_str()) == Some("seal") {
         let rhs = if c["kind"] == "data" { "data | +K : Int64 end" } else { "Int64" };
         let build = if c["kind"] == "data" { "+K(3)" } else { "3" };
@@ -179,12 +187,15 @@ pub fn replay_exists(cases_path: &str, out_path: &str) {
                     let got = if first.contains("Existential witness escapes") { "escape" } else if first.contains("Type mismatch") { "mismatch" }
                               else if first.contains("Missing named field") { "missingfield" } else if first.contains("Named label mismatch") { "labelmismatch" } else { "other" };
                     class = format!("rejected-{got}");
-                    if want == "accept" {
+                    if want == "reject" {
+                        // any diagnostic will do
+                    } else if want == "accept" {
                         findings.push(mk("rejects-well-typed", format!("{} opened by {} under path {:?}, body {}, context {}: the rule accepts, the checker says {first}", c["pkg"], c["opener"], c["path"], c["body"], c["ctx"])));
                     } else if got != want {
                         findings.push(mk("rejected-without-the-expected-diagnostic", format!("{} {} {:?} {} {}: expected {want}, checker says {first}", c["pkg"], c["opener"], c["path"], c["body"], c["ctx"])));
                     }
                 }
+                | (Verdict::Resolve { .. }, "reject") => class = "rejected-by-the-resolver".to_string(),
                 | (other, _) => {
                     class = "other".to_string();
                     findings.push(mk("unexpected-outcome", format!("{} {} {:?} {} {}: {}", c["pkg"], c["opener"], c["path"], c["body"], c["ctx"], other.short())));
